@@ -1,7 +1,7 @@
 #!/bin/bash
 # Sanitizer tiers of the thorough commands (DESIGN.md §2, §6.5, §6.17).
 #   ./sanitizers.sh C17   ThreadSanitizer build of the concurrent stress workload + Miri (many seeds)
-#   ./sanitizers.sh C05   AddressSanitizer replay of the adversarial/hostile sets + Miri on a small adversarial set
+#   ./sanitizers.sh C05   AddressSanitizer replay of the adversarial/hostile sets + valgrind memcheck on a fifth of them + Miri on a small adversarial set
 # Writes target/sanitizer-report-<prop>.json; never decides a verdict itself.
 set -u
 cd "$(dirname "$0")"
@@ -96,9 +96,27 @@ run_asan() {
   fi
 }
 
+run_memcheck() { # valgrind memcheck on the plain release build: uninitialised reads, invalid accesses in what typstyle drives
+  local log=target/memcheck.log
+  local bin=target/release/tyv
+  if [ ! -x $bin ] || ! command -v valgrind >/dev/null; then add memcheck build-failed 0 0 "" "no release binary or no valgrind"; return; fi
+  for k in 0 1 2 3 4 5 6 7; do
+    valgrind -q --error-exitcode=99 --errors-for-leak-kinds=none --num-callers=20 $bin san-total $k 8 midi > target/memcheck-$k.log 2>&1 &
+  done
+  wait
+  cat target/memcheck-?.log > $log
+  local reports=$(grep -c -E "^==[0-9]+== (Invalid|Conditional jump|Use of uninitialised|Syscall param|Mismatched|Source and destination)" $log || true)
+  local done_=$(grep -c '^SAN-TOTAL' $log || true)
+  if [ "$reports" = "0" ] && [ "$done_" != "8" ]; then
+    add memcheck build-or-harness-failed 0 0 "" "$(tail -8 $log)"
+  else
+    add memcheck ok 8 $reports "$(grep '^SAN-TOTAL' $log | tr '\n' ';')" "$(grep -A14 -E '^==[0-9]+== (Invalid|Conditional jump|Use of uninitialised)' $log | head -40)"
+  fi
+}
+
 case "$PROP" in
   C17) run_tsan; MIRI_SEEDS=${MIRI_SEEDS:-32} run_miri stress stress 3 1 4 ;;
-  C05) run_asan; run_miri_total ;;
+  C05) run_asan; run_memcheck; run_miri_total ;;
 esac
 
 printf '{"tools":[%s]}\n' "$(IFS=,; echo "${entries[*]}")" > $OUT
